@@ -1505,6 +1505,11 @@ def getitem(engine, run, obj, idx):   # noqa: F811
     if isinstance(obj, _heap.SListObj):
         m = obj.cls.lookup("__getitem__") if obj.cls is not None else None
         if m is not None:
+            c = engine.modular.get(m.key)           # a call-site contract of the subclass's __getitem__ takes precedence (modular use)
+            if c is not None and not getattr(run, "_verifying", None) == m.key:
+                r = c.apply(engine, run, m, [obj, idx], {})
+                if r is not NotImplemented:
+                    return r
             return engine.call_function(run, m, [obj, idx], {}, self_cls=m.cls)
         return obj.raw_getitem(run, idx)
     return _old_getitem2(engine, run, obj, idx)
